@@ -487,7 +487,7 @@ func main() {
 					vec.Masks = append(vec.Masks, ms)
 					st.Masks++
 				}
-				if k == 0 {
+				if k == 0 || *tier == "thorough" {
 					vec.Owns = (&pgen{r: r.Fork(), prog: p}).ownSpecs(s, v, 2)
 				}
 				vectors[p.Key] = append(vectors[p.Key], vec)
